@@ -1036,6 +1036,16 @@ fn oracles(out: &mut Out, sc: &Script, o: &Obs, op: &str) {
     let p = sc.puller.name();
     let exp = sc.expected_content();
     let ops = [op.to_string()];
+    // a destination whose temp sibling's name would be too long: failing cleanly is what the code does; a tree
+    // that found another temp name and published the complete content would not break the property either
+    if sc.dest == Dest::Name250 && o.ok {
+        let alt = (Script { dest: Dest::None, ..sc.clone() }).expected_content();
+        if let (Some(c), DestState::New(b)) = (&alt, &o.dest) {
+            if b == c && !o.tmp {
+                return;
+            }
+        }
+    }
     match (&exp, o.ok) {
         (None, true) => out.oracle_fail(&format!("commit.{p}.ok-on-failing-script"), "the pull returned Ok although the script is a failing one (producer error / cut / rejected / short / incompatible / write refused)", &ops),
         (Some(_), false) => out.oracle_fail(&format!("commit.{p}.err-on-complete-stream"), "the pull returned Err although the whole stream arrived and verification accepted", &ops),
@@ -1524,6 +1534,13 @@ impl Ctx {
     /// into a connection cut. Which of the others got through is a matter of timing; each must be admissible on
     /// its own: Ok with exactly its complete content, or Err with its destination as it was — and no temp file.
     fn exec_storm(&mut self, out: &mut Out, idx: &str, scripts: &[Script]) {
+        self.exec_storm_on(out, idx, scripts, None)
+    }
+
+    /// `real`: (off-reader cap, outbound capacity, chunk size) of the crate's own WebSocketServer serving the
+    /// scripts' payloads from reader streams — the saturated-cap refusals, the bounded outbound queue and the
+    /// off-reader dispatch are other properties' paths; here only this property's clauses are checked on them.
+    fn exec_storm_on(&mut self, out: &mut Out, idx: &str, scripts: &[Script], real: Option<(usize, usize, usize)>) {
         if should_stop(out) {
             return;
         }
@@ -1537,6 +1554,35 @@ impl Ctx {
         }
         let (addr, rt) = (self.fake.addr, self.rt.clone());
         let (sc2, d2, n2) = (scripts.to_vec(), dests.clone(), names.clone());
+        if let Some((cap, outcap, chunk)) = real {
+            let table: HashMap<String, Vec<u8>> = names.iter().cloned().zip(scripts.iter().map(|s| s.payload().unwrap_or_default())).collect();
+            let res = guarded(60, move || {
+                rt.block_on(async move {
+                    let opts = StreamOpts { chunk_bytes: chunk, compression: Compression::None, zstd_level: 3, session_depth: 1 };
+                    let router = Router::new().with_reader_stream(move |r: &str| table.get(r).map(|b| std::io::Cursor::new(b.clone())), opts);
+                    let server = repe::websocket_server::WebSocketServer::new(router).with_offreader_limit(cap).with_outbound_capacity(outcap);
+                    let Ok(l) = repe::websocket_server::WebSocketServer::listen("127.0.0.1:0").await else { return vec![false; sc2.len()] };
+                    let wsa = l.local_addr().unwrap();
+                    tokio::spawn(async move {
+                        let _ = server.serve_listener(l, "/").await;
+                    });
+                    let Ok(c) = repe::WebSocketClient::connect(&format!("ws://{wsa}/")).await else { return vec![false; sc2.len()] };
+                    let c = &c;
+                    let futs = sc2.iter().enumerate().map(|(i, sc)| {
+                        let (dest, name) = (d2[i].clone(), n2[i].clone());
+                        async move {
+                            match sc.puller {
+                                Puller::FileAsync => repe::pull_to_file_async(c, &name, &dest).await.map(|_| ()).is_ok(),
+                                Puller::VerifiedAsync => repe::pull_to_file_verified_async(c, &name, &dest, Vec::<u8>::new(), |_d: Vec<u8>| if sc.verify_ok { Ok(()) } else { Err(rej()) }).await.is_ok(),
+                                _ => repe::pull_to_file_trailer_verified_async(c, &name, &dest, sc.trailer, Vec::<u8>::new(), |_d: Vec<u8>, _t: &[u8]| if sc.verify_ok { Ok(()) } else { Err(rej()) }).await.is_ok(),
+                            }
+                        }
+                    });
+                    futures_util::future::join_all(futs).await
+                })
+            });
+            return self.finish_storm(out, idx, scripts, &dests, &names, res, &dir, Some(format!("{cap} {outcap} {chunk}")));
+        }
         let res = guarded(60, move || {
             rt.block_on(async move {
                 let Ok(c) = AsyncClient::connect(addr).await else { return vec![false; sc2.len()] };
@@ -1547,12 +1593,22 @@ impl Ctx {
                 futures_util::future::join_all(futs).await
             })
         });
-        for n in &names {
+        self.finish_storm(out, idx, scripts, &dests, &names, res, &dir, None)
+    }
+
+    #[allow(clippy::too_many_arguments)]
+    fn finish_storm(&mut self, out: &mut Out, idx: &str, scripts: &[Script], dests: &[PathBuf], names: &[String], res: Option<Vec<bool>>, dir: &Path, real: Option<String>) {
+        for n in names {
             self.fake.unregister(n);
         }
+        let head = match &real {
+            Some(r) => format!("wsstorm {idx} {r}"),
+            None => format!("storm {idx}"),
+        };
         let words: Vec<String> = scripts.iter().map(|s| s.words()).collect();
         let Some(res) = res else {
-            out.oracle_fail("commit.storm.call-never-returned", "pulls sharing a client whose connection was cut did not all return within 60 s", &[format!("storm {} {}", idx, words.join(" :: "))]);
+            EXPIRIES.fetch_add(0, Ordering::Relaxed);
+            out.oracle_fail("commit.storm.call-never-returned", "pulls sharing one client did not all return within 60 s", &[format!("{} {}", head, words.join(" :: "))]);
             return;
         };
         let mut obs = vec![];
@@ -1572,12 +1628,12 @@ impl Ctx {
             }
             obs.push(format!("{}|{}", if res[i] { "ok" } else { "err" }, show_dest(&st)));
         }
-        let _ = std::fs::remove_dir_all(&dir);
-        let op = format!("storm {} {} {}", idx, obs.join(" "), words.join(" :: "));
+        let _ = std::fs::remove_dir_all(dir);
+        let op = format!("{} {} {}", head, obs.join(" "), words.join(" :: "));
         if !bad.is_empty() {
             out.oracle_fail("commit.storm.inadmissible-outcome", &bad.join("; "), &[op.clone()]);
         }
-        out.count(&format!("storm.pulls.{}", scripts.len()));
+        out.count(&format!("{}.pulls.{}", if real.is_some() { "wsstorm" } else { "storm" }, scripts.len()));
         out.add("storm.got-through", res.iter().filter(|x| **x).count() as u64);
         out.case(&op, &format!("{idx} storm ok"), true);
     }
@@ -3239,6 +3295,22 @@ fn gen_and_run(args: &Args, out: &mut Out, ctx: &mut Ctx) {
                 ctx.exec_par(out, &next("l"), 4, true, &scripts);
             }
         }
+        // this property's clauses on other properties' paths: the crate's WebSocketServer with its off-reader cap
+        // saturated (cap 1, five pulls at once on one connection), a one-slot outbound queue, tiny chunks
+        for (cap, outcap, chunk, n) in [(1usize, 1usize, 4usize, 5usize), (2, 64, 16, 6), (64, 1, 1, 4)] {
+            let mut scripts = vec![];
+            for i in 0..n {
+                let p = [Puller::FileAsync, Puller::TrailerAsync, Puller::VerifiedAsync][i % 3];
+                let logical: Vec<u8> = rng.bytes(30 + 11 * i);
+                let mut sc = make_script(p, false, &logical, &[chunk], None, false);
+                sc.ws = true;
+                sc.trailer = if p.has_trailer() { 3 } else { 0 };
+                sc.verify_ok = i % 4 != 3;
+                sc.dest = if i % 2 == 0 { Dest::Old } else { Dest::None };
+                scripts.push(sc);
+            }
+            ctx.exec_storm_on(out, &next("u"), &scripts, Some((cap, outcap, chunk)));
+        }
         // the bulk numeric producers (typed / complex arrays) behind the file pullers
         for kind in [3u8, 4] {
             for zstd in [false, true] {
@@ -3554,8 +3626,9 @@ fn replay(ops: Vec<String>, out: &mut Out, ctx: &mut Ctx) {
                     }
                 }
             }
-            "storm" => {
-                let mut k = 2;
+            "storm" | "wsstorm" => {
+                let real = if w[0] == "wsstorm" && w.len() > 5 { Some((w[2].parse().unwrap_or(1), w[3].parse().unwrap_or(1), w[4].parse().unwrap_or(16))) } else { None };
+                let mut k = if real.is_some() { 5 } else { 2 };
                 while k < w.len() && (w[k].starts_with("ok|") || w[k].starts_with("err|")) {
                     k += 1;
                 }
@@ -3572,7 +3645,7 @@ fn replay(ops: Vec<String>, out: &mut Out, ctx: &mut Ctx) {
                     }
                 }
                 if !steps.is_empty() {
-                    ctx.exec_storm(out, &idx, &steps);
+                    ctx.exec_storm_on(out, &idx, &steps, real);
                 }
             }
             "par" => {
